@@ -118,9 +118,19 @@ static void algebra_case(Rng &rng, Stats &st, uint64_t k, bool thorough) {
     if (n <= 6) {
         int64_t e = (int64_t)rng.below(9) - 3;
         if (rng.chance(0.2)) e = (int64_t)(rng.next() % 2000001) - 1000000;
+        {
+            // exponents whose magnitude needs more than 32 bits, up to both ends of the int64 range
+            Rng side = rng.sub(785);
+            if (side.chance(0.25)) {
+                static const std::vector<int64_t> HUGE_E = {INT64_MAX, INT64_MIN, INT64_MIN + 1, (int64_t)1 << 32, -((int64_t)1 << 32), ((int64_t)1 << 32) + 1,
+                                                            ((int64_t)1 << 40) + 3, -(((int64_t)1 << 47) + 5), ((int64_t)1 << 62) + 7, -(((int64_t)1 << 62) + 11)};
+                e = side.chance(0.6) ? side.pick(HUGE_E) : (int64_t)side.next();
+                st.hit("pow.huge_exponent");
+            }
+        }
         auto P = A.raised_to(e);
         st.hit(e < 0 ? "pow.negative" : "pow.nonnegative");
-        if (std::llabs(e) <= 8) {
+        if (e != INT64_MIN && std::llabs(e) <= 8) {
             if (e >= 0) out_q("tab pow " + std::to_string(e) + " " + wa, wire_tab<W>(P));
             else out_q("tab pow " + std::to_string(-e) + " " + wire_tab<W>(Ai), wire_tab<W>(P));
         } else {
@@ -135,8 +145,15 @@ static void algebra_case(Rng &rng, Stats &st, uint64_t k, bool thorough) {
                 }
             }
             if (order) {
-                int64_t r = ((e % order) + order) % order;
+                int64_t r = ((e % order) + order) % order;   // (e % order is well defined for INT64_MIN too)
                 if (r <= 64) out_q("tab pow " + std::to_string(r) + " " + wa, wire_tab<W>(P));
+                else {
+                    // beyond what the model is asked to compute: T^e must equal T^(e mod order) (built by repeated composition)
+                    Tableau<W> R(n);
+                    for (int64_t i = 0; i < r; i++) R = R.then(A);
+                    if (R != P) out_x("raised_to(" + std::to_string(e) + ") differs from the power reduced modulo the order " + std::to_string(order));
+                    st.hit("pow.reduced_mod_order");
+                }
             }
         }
         // direct sum
